@@ -330,7 +330,13 @@ impl Ctx {
         }
         if !cc.viol.is_empty() {
             let v = rendered.get_or_insert_with(&desc).clone();
+            let mut seen_keys: Vec<String> = Vec::new();
             for (key, detail, own_case) in cc.viol.drain(..) {
+                // one count per key per case
+                if seen_keys.contains(&key) {
+                    continue;
+                }
+                seen_keys.push(key.clone());
                 let b = self.res.violations.entry(key.clone()).or_default();
                 b.count += 1;
                 if b.examples.len() < EXAMPLES_PER_KEY {
